@@ -863,7 +863,11 @@ package ast
 //@   ghost_exit $rPos = ite(err == nil, $rPos + 1, $rPos)
 //@   ghost_exit $rErrN = ite(err != nil, $rErrN + 1, $rErrN)
 //@   nopanic[C20]
-//@   ensures[C20] allocbounded: $allocated - old($allocated) <= 2 * ($consumed - old($consumed)) + 16
+// C20: what is allocated before it has been read is bounded by ONE chunk, whatever the length prefix says (the amortised growth of
+// append is a constant factor of what was read: T-ALLOC, not counted); the loop ends: the outstanding byte count shrinks
+//@   ensures[C20] allocbounded: $allocated - old($allocated) <= ($consumed - old($consumed)) + 4096 + 16
+//@   invariant@1[C20] paid: $allocated - old($allocated) <= ($consumed - old($consumed)) + 16 && remaining >= 0
+//@   decreases@1 remaining
 //@ extern func ReadIntFromReader(r) (i, err)
 //@   nopanic
 //@   ensures (err == nil) == (old($rPos) < $rEnd)
